@@ -625,7 +625,7 @@ func init() {
 		ID: "C17", Level: "model_checking",
 		Rule: "the io.Reader is modelled as an environment whose every Read(p) is a choice point (states = distinct (offset, len(p)) choice points reached; transitions = answers given: full delivery, every shorter delivery 1..n-1, (0,nil), data together with io.EOF); every schedule with <= B deviations from 'deliver everything asked for' is executed on the real reader of every corpus document and its canonical result (or the fact of failing) compared with the all-at-once result; plus fixed schedules (1..1024-byte chunks, halves, increasing, data-with-EOF, alternating zero-length reads) and CRLF pairs aligned to 4096/8192/65536 buffer boundaries in generated large documents",
 		Scope: map[core.Tier]string{
-			core.Quick:    "all 54 corpus documents (hand-made + /repo/testdata, valid and invalid, LF/CRLF/CR, STL with 0..3 TTI, TTML, TS when available): every schedule with <=1 deviation (= every single split point, exhaustive) + 20 fixed schedules; 45 large documents x all-at-once and +-2 around every 4096 multiple; every document behind 8 kinds of reader holding the same bytes (Read only, Read+Seek only, strings.Reader, bytes.Buffer, bufio.Reader, multi-reader, 1 KiB chunks, data with end-of-file; transport streams: the seekable ones); lines of 65535 / 65536 / 65537 / 70000 bytes (alone and as a cue's text) behind the same kinds; documents whose long first line grows the scanner buffer to 4 / 8 / 64 KiB followed by more than that many short CR LF / CR lines, 4 residues",
+			core.Quick:    "all 54 corpus documents (hand-made + /repo/testdata, valid and invalid, LF/CRLF/CR, STL with 0..3 TTI, TTML, TS when available): every schedule with <=1 deviation (= every single split point, exhaustive) + 20 fixed schedules; 45 large documents x all-at-once and +-2 around every 4096 multiple; every document behind 8 kinds of reader holding the same bytes (Read only, Read+Seek only, strings.Reader, bytes.Buffer, bufio.Reader, multi-reader, 1 KiB chunks, data with end-of-file; transport streams: the seekable ones); lines of 65535 / 65536 / 65537 / 70000 bytes (alone and as a cue's text) behind the same kinds; documents whose long first line grows the scanner buffer to 4 / 8 / 64 KiB followed by more than that many short CR LF / CR lines, 4 residues; the small text documents with unusual line ends: CR CR LF, LF CR, five phases of a rotation through the terminator kinds, CR as last byte, each single line end (first 40) as a bare CR",
 			core.Thorough: "additionally <=2 deviations for documents <=2000 bytes and <=3 for <=130 bytes; long lines up to 1 MiB + 1; buffer sizes 4 .. 64 KiB all five",
 		},
 		Assumptions: []string{"Go toolchain and standard library (bufio, encoding/xml)", "astits for the transport-stream layer", "results compared through the canonical dump (engine/props/dump)"},
